@@ -13,6 +13,7 @@ Variable parse_tree : mapper -> tz -> res (option T * mapper * tz).
 Variable set_label : T -> option str -> T.
 Variable add_comments : T -> list str -> T.
 Variable vl : bool.
+Variable vs : bool.
 Variables va vk : bool.
 
 Hypothesis H_consumes : forall m z ot m' z',
@@ -20,14 +21,14 @@ Hypothesis H_consumes : forall m z ot m' z',
 Hypothesis H_upper : forall s, upper (upper s) = upper s.
 
 Lemma nosets_of : forall d : doc,
-  (forall t, In t (fst d) -> is_sets_kw (Some (upper (t_text t))) = false) -> NoSets upper (fst d).
-Proof. intros d H. unfold NoSets. apply Forall_forall. exact H. Qed.
+  (vs = true \/ forall t, In t (fst d) -> is_sets_kw (Some (upper (t_text t))) = false) -> SetsOk upper vs (fst d).
+Proof. intros d [H|H]; [left; exact H | right; unfold NoSets; apply Forall_forall; exact H]. Qed.
 
 Lemma S_nexus_loops_agree : forall (nc : nscfg) (tlf : tl_factory) (ns0 : list str) (d : doc),
-  (forall t, In t (fst d) -> is_sets_kw (Some (upper (t_text t))) = false) ->
+  (vs = true \/ forall t, In t (fst d) -> is_sets_kw (Some (upper (t_text t))) = false) ->
   let Y := y_items_from_stream T lower upper parse_tree set_label add_comments vl nc false
                                (doc_fuel d) (core_init nc ns0 d) (regs_init nc) in
-  let R := nexus_read T lower upper parse_tree set_label add_comments vl (mkCfg nc tlf) ns0 d in
+  let R := nexus_read T lower upper parse_tree set_label add_comments vl vs (mkCfg nc tlf) ns0 d in
   match snd Y with
   | Ok (k', g') =>
     exists s, R = Ok s /\ r_k s = k' /\ r_g s = g'
@@ -40,60 +41,60 @@ Lemma S_nexus_loops_agree : forall (nc : nscfg) (tlf : tl_factory) (ns0 : list s
   end.
 Proof.
   intros nc tlf ns0 d N.
-  exact (nexus_loops_agree_l T lower upper parse_tree set_label add_comments vl H_consumes H_upper nc tlf ns0 d (nosets_of d N)).
+  exact (nexus_loops_agree_l T lower upper parse_tree set_label add_comments vl vs H_consumes H_upper nc tlf ns0 d (nosets_of d N)).
 Qed.
 
 Lemma S_routes_agree_nexus : forall (ns0 : list str) (d : doc) ts ns,
-  (forall t, In t (fst d) -> is_sets_kw (Some (upper (t_text t))) = false) ->
-  treelist_read T lower upper parse_tree set_label add_comments va vl Nexus ns0 d = Ok (ts, ns) ->
+  (vs = true \/ forall t, In t (fst d) -> is_sets_kw (Some (upper (t_text t))) = false) ->
+  treelist_read T lower upper parse_tree set_label add_comments va vl vs Nexus ns0 d = Ok (ts, ns) ->
   yield_from_files T lower upper parse_tree set_label add_comments vl Nexus ns0 d = (ts, Ok ns)
   /\ (forall k, treearray_read T lower upper parse_tree set_label add_comments vl Nexus k ns0 d
                 = (skipn (Z.to_nat k) ts, Ok ns)).
 Proof.
   intros ns0 d ts ns N H.
-  pose proof (routes_agree_nexus_l T lower upper parse_tree set_label add_comments vl va H_consumes H_upper ns0 d ts ns (nosets_of d N) H) as Y.
+  pose proof (routes_agree_nexus_l T lower upper parse_tree set_label add_comments vl vs va H_consumes H_upper ns0 d ts ns (nosets_of d N) H) as Y.
   split; [exact Y|]. intros k. rewrite treearray_l, Y. reflexivity.
 Qed.
 
 Lemma S_dataset_blocks_concat : forall (d : doc),
-  (forall t, In t (fst d) -> is_sets_kw (Some (upper (t_text t))) = false) ->
+  (vs = true \/ forall t, In t (fst d) -> is_sets_kw (Some (upper (t_text t))) = false) ->
   (* one list per collection (what Tree.get and TreeList.get(collection_offset=..) parse) and the
      single list of TreeList.get: exact, errors included *)
-  match read_blocks T lower upper parse_tree set_label add_comments vl Nexus (cfg_blocks va) [] d with
-  | Ok (blocks, ns) => treelist_get T lower upper parse_tree set_label add_comments va vl Nexus d = Ok (concat blocks, ns)
-  | Err e => treelist_get T lower upper parse_tree set_label add_comments va vl Nexus d = Err e
-  | OutOfFuel => treelist_get T lower upper parse_tree set_label add_comments va vl Nexus d = OutOfFuel
+  match read_blocks T lower upper parse_tree set_label add_comments vl vs Nexus (cfg_blocks va) [] d with
+  | Ok (blocks, ns) => treelist_get T lower upper parse_tree set_label add_comments va vl vs Nexus d = Ok (concat blocks, ns)
+  | Err e => treelist_get T lower upper parse_tree set_label add_comments va vl vs Nexus d = Err e
+  | OutOfFuel => treelist_get T lower upper parse_tree set_label add_comments va vl vs Nexus d = OutOfFuel
   end
   /\
   (* DataSet.get(taxon_namespace=ns): whenever TreeList.get succeeds *)
-  (forall ts ns, treelist_get T lower upper parse_tree set_label add_comments va vl Nexus d = Ok (ts, ns) ->
-     exists blocks, dataset_get T lower upper parse_tree set_label add_comments vl Nexus true d = Ok blocks
+  (forall ts ns, treelist_get T lower upper parse_tree set_label add_comments va vl vs Nexus d = Ok (ts, ns) ->
+     exists blocks, dataset_get T lower upper parse_tree set_label add_comments vl vs Nexus true d = Ok blocks
                     /\ concat blocks = ts).
 Proof.
   intros d N. split.
-  - exact (blocks_vs_list_l T lower upper parse_tree set_label add_comments vl va H_consumes H_upper d (nosets_of d N)).
+  - exact (blocks_vs_list_l T lower upper parse_tree set_label add_comments vl vs va H_consumes H_upper d (nosets_of d N)).
   - intros ts ns H.
-    exact (dataset_attached_l T lower upper parse_tree set_label add_comments vl va H_consumes H_upper d ts ns (nosets_of d N) H).
+    exact (dataset_attached_l T lower upper parse_tree set_label add_comments vl vs va H_consumes H_upper d ts ns (nosets_of d N) H).
 Qed.
 
 Lemma S_offset_selection : forall (d : doc),
-  (forall t, In t (fst d) -> is_sets_kw (Some (upper (t_text t))) = false) ->
+  (vs = true \/ forall t, In t (fst d) -> is_sets_kw (Some (upper (t_text t))) = false) ->
   forall blocks ns,
-  read_blocks T lower upper parse_tree set_label add_comments vl Nexus (cfg_blocks va) [] d = Ok (blocks, ns) ->
-  treelist_get T lower upper parse_tree set_label add_comments va vl Nexus d = Ok (concat blocks, ns)
-  /\ (forall c k, tree_get T lower upper parse_tree set_label add_comments va vk vl Nexus c k d
+  read_blocks T lower upper parse_tree set_label add_comments vl vs Nexus (cfg_blocks va) [] d = Ok (blocks, ns) ->
+  treelist_get T lower upper parse_tree set_label add_comments va vl vs Nexus d = Ok (concat blocks, ns)
+  /\ (forall c k, tree_get T lower upper parse_tree set_label add_comments va vk vl vs Nexus c k d
                   = select_tree T set_label vk blocks (match c with Some c => c | None => 0 end)
                                 (match k with Some k => k | None => 0 end))
   /\ (forall (c k : nat) b t, nth_error blocks c = Some b -> nth_error b k = Some t ->
-        tree_get T lower upper parse_tree set_label add_comments va vk vl Nexus (Some (Z.of_nat c)) (Some (Z.of_nat k)) d
+        tree_get T lower upper parse_tree set_label add_comments va vk vl vs Nexus (Some (Z.of_nat c)) (Some (Z.of_nat k)) d
         = Ok (got_label T set_label vk t)
         /\ nth_error (concat blocks) (length (concat (firstn c blocks)) + k) = Some t)
   /\ (forall c k, (c <> None \/ k <> None) ->
-        treelist_get_off T lower upper parse_tree set_label add_comments va vl Nexus c k d
+        treelist_get_off T lower upper parse_tree set_label add_comments va vl vs Nexus c k d
         = select_offsets T blocks (match c with Some c => c | None => 0 end) k).
 Proof.
   intros d N blocks ns H.
-  exact (offset_selection_nexus_l T lower upper parse_tree set_label add_comments vl va vk H_consumes H_upper d (nosets_of d N) blocks ns H).
+  exact (offset_selection_nexus_l T lower upper parse_tree set_label add_comments vl vs va vk H_consumes H_upper d (nosets_of d N) blocks ns H).
 Qed.
 
 (* what select_tree / select_offsets compute: Python indexing, spelled out *)
@@ -149,26 +150,26 @@ Proof.
   repeat split; assumption.
 Qed.
 
-Lemma S_read_twice : forall T lower upper parse_tree set_label add_comments va vl sch ns0 d,
-  treelist_read_twice T lower upper parse_tree set_label add_comments va vl sch ns0 d =
-  match treelist_read T lower upper parse_tree set_label add_comments va vl sch ns0 d with
-  | Ok (_, ns1) => treelist_read T lower upper parse_tree set_label add_comments va vl sch ns1 d
+Lemma S_read_twice : forall T lower upper parse_tree set_label add_comments va vl vs sch ns0 d,
+  treelist_read_twice T lower upper parse_tree set_label add_comments va vl vs sch ns0 d =
+  match treelist_read T lower upper parse_tree set_label add_comments va vl vs sch ns0 d with
+  | Ok (_, ns1) => treelist_read T lower upper parse_tree set_label add_comments va vl vs sch ns1 d
   | Err e => Err e
   | OutOfFuel => OutOfFuel
   end.
 Proof.
   intros. unfold treelist_read_twice.
-  destruct (treelist_read T lower upper parse_tree set_label add_comments va vl sch ns0 d) as [[ts ns1]|e|]; reflexivity.
+  destruct (treelist_read T lower upper parse_tree set_label add_comments va vl vs sch ns0 d) as [[ts ns1]|e|]; reflexivity.
 Qed.
 
-Lemma S_newick_grows : forall T lower upper parse_tree set_label add_comments va vl,
+Lemma S_newick_grows : forall T lower upper parse_tree set_label add_comments va vl vs,
   (forall m z ot m' z', parse_tree m z = Ok (ot, m', z') -> exists r, m_ns m' = m_ns m ++ r) ->
   forall ns0 d ts ns1,
-  treelist_read T lower upper parse_tree set_label add_comments va vl Newick ns0 d = Ok (ts, ns1) ->
+  treelist_read T lower upper parse_tree set_label add_comments va vl vs Newick ns0 d = Ok (ts, ns1) ->
   exists r, ns1 = ns0 ++ r.
 Proof.
-  intros T lower upper parse_tree set_label add_comments va vl H ns0 d ts ns1 E.
-  exact (newick_read_grows T lower upper parse_tree set_label add_comments va vl H ns0 d ts ns1 E).
+  intros T lower upper parse_tree set_label add_comments va vl vs H ns0 d ts ns1 E.
+  exact (newick_read_grows T lower upper parse_tree set_label add_comments va vl vs H ns0 d ts ns1 E).
 Qed.
 
 (* the hypotheses are satisfiable: the skeleton parser and ASCII upper-casing of the correspondence run *)
@@ -187,24 +188,24 @@ Qed.
 (* the fuel of the NEXUS drivers suffices *)
 Lemma S_nexus_fuel : forall (T : Type) (lower upper : str -> str)
          (parse_tree : mapper -> tz -> res (option T * mapper * tz))
-         (set_label : T -> option str -> T) (add_comments : T -> list str -> T) (vl : bool),
+         (set_label : T -> option str -> T) (add_comments : T -> list str -> T) (vl vs : bool),
   (forall m z ot m' z', parse_tree m z = Ok (ot, m', z') -> exists pre, z_toks z = pre ++ z_toks z') ->
   (forall m z, parse_tree m z <> OutOfFuel) ->
   forall (nc : nscfg) (ns0 : list str) (d : doc),
   snd (y_items_from_stream T lower upper parse_tree set_label add_comments vl nc false
                            (doc_fuel d) (core_init nc ns0 d) (regs_init nc)) <> OutOfFuel
   /\ ((forall s, upper (upper s) = upper s) ->
-      (forall t, In t (fst d) -> is_sets_kw (Some (upper (t_text t))) = false) ->
-      forall tlf, nexus_read T lower upper parse_tree set_label add_comments vl (mkCfg nc tlf) ns0 d <> OutOfFuel).
+      (vs = true \/ forall t, In t (fst d) -> is_sets_kw (Some (upper (t_text t))) = false) ->
+      forall tlf, nexus_read T lower upper parse_tree set_label add_comments vl vs (mkCfg nc tlf) ns0 d <> OutOfFuel).
 Proof.
-  intros T lower upper parse_tree set_label add_comments vl HC HN nc ns0 d.
+  intros T lower upper parse_tree set_label add_comments vl vs HC HN nc ns0 d.
   assert (Y : snd (y_items_from_stream T lower upper parse_tree set_label add_comments vl nc false
                            (doc_fuel d) (core_init nc ns0 d) (regs_init nc)) <> OutOfFuel).
   { apply (y_items_nf T lower upper parse_tree set_label add_comments vl nc false HC HN).
     unfold len, core_init, doc_tz, tz_init, doc_fuel. simpl. lia. }
   split; [exact Y|].
   intros HU NS tlf R.
-  pose proof (S_nexus_loops_agree T lower upper parse_tree set_label add_comments vl HC HU nc tlf ns0 d NS) as A.
+  pose proof (S_nexus_loops_agree T lower upper parse_tree set_label add_comments vl vs HC HU nc tlf ns0 d NS) as A.
   cbv zeta in A.
   destruct (snd (y_items_from_stream T lower upper parse_tree set_label add_comments vl nc false
                            (doc_fuel d) (core_init nc ns0 d) (regs_init nc))) as [[k' g']|e|].
